@@ -11,6 +11,8 @@ import common, gen_pip
 HERE = os.path.dirname(os.path.abspath(__file__))
 COQ_FILES = ["PIP/PipSpec.v", "PIP/PipTree.v", "PIP/PipRef.v", "PIP/PipCuts.v"]
 FUEL = 64
+MAX_DEATHS = 10          # timeouts/crashes per batch after which the rest of the batch is not run
+MAX_VIOLATIONS = 6       # enough to show the property is broken; the run stops attributing after that
 BIGVALS = [1000003, 1000004, 1000005, 1000006, 1000007, 1000000007]
 SITE_ROW_SIGN = "PIP_Solution_Node::row_sign/solve (PIP_Tree.cc)"
 
@@ -95,7 +97,10 @@ def run_harness(exe, cases, tmo):
     """cases: list of (cid, ops). Returns {cid: [step, ...]}, step = dict(status=OPT|UNF|TIMEOUT|CRASH|EXC, ...)."""
     res = {cid: [] for cid, _ in cases}
     todo = list(cases)
+    deaths = 0
     while todo:
+        if deaths >= MAX_DEATHS:
+            break          # the library is evidently broken: the cases not run are reported as skipped
         text = "".join(gen_pip.render(cid, ops) for cid, ops in todo)
         p = subprocess.run([exe, str(tmo)], input=text, stdout=subprocess.PIPE, stderr=subprocess.STDOUT, text=True,
                            timeout=tmo * len(todo) + 120)
@@ -128,6 +133,7 @@ def run_harness(exe, cases, tmo):
             res[begun].append({"status": "CRASH", "rc": p.returncode, "tail": p.stdout[-300:]})
         i = ids.index(begun)
         todo = todo[i + 1:]
+        deaths += 1
     return res
 
 
@@ -170,7 +176,7 @@ def run_judge(judge, lines, timeout):
 # ------------------------------------------------------------------------------------------------
 # evaluation of a batch of histories
 
-def evaluate(exe, judge, cases, bound, tmo=5, fuel=FUEL, judge_timeout=1500):
+def evaluate(exe, judge, cases, bound, tmo=4, fuel=FUEL, judge_timeout=1500):
     """cases: list of (cid, ops). Returns list of step verdicts:
        dict(cid, step, ops, snap, kind=None|<failure kind>, detail, judge=<json or None>)."""
     hres = run_harness(exe, cases, tmo)
@@ -354,6 +360,9 @@ def process(chk, T, verdicts, bound, stats):
     for v in verdicts:
         k = v["kind"]
         j = v.get("judge") or {}
+        if len(chk.violations) >= MAX_VIOLATIONS:
+            stats["not_processed_after_%d_violations" % MAX_VIOLATIONS] += 1
+            continue
         if k == "skipped":
             stats["skipped"] += 1
             continue
@@ -434,7 +443,7 @@ def run(chk):
     batch = 450 if chk.quick else 1000
     budget_s = 150 if chk.quick else 1500
     done = 0; b = 0
-    while done < total and time.time() - chk.t0 < budget_s:
+    while done < total and time.time() - chk.t0 < budget_s and len(chk.violations) < MAX_VIOLATIONS:
         rng = random.Random(chk.seed * 1000003 + b)
         cases = []
         for i in range(min(batch, total - done)):
